@@ -6,6 +6,7 @@ CONSTANT BinDomains <- QBin
 CONSTANT BfsDomains <- QBfs
 CONSTANT NavDomains <- None
 INVARIANT OracleInv
+INVARIANT FastOracleInv
 INVARIANT DjRowsDoneInv
 INVARIANT DjWhileInv
 INVARIANT DjFinalInv
